@@ -171,6 +171,7 @@ def assemble(modname, prog, var, cmap, decls, macros, rules, push_conv):
                 pushes.append(f'         "{r["name"]}" => {{ self.0.{r["name"]}.push(std::sync::RwLock::new({conv(r)})); }},')
             else:
                 pushes.append(f'         "{r["name"]}" => {{ self.0.{r["name"]}.push({conv(r)}); }},')
+        clears = [f'         "{r["name"]}" => {{ self.0.{r["name"]} = Default::default(); }},' for r in plain]
         dumps = []
         for r in plain:
             if r["kind"] == "lat" and par:
@@ -187,6 +188,12 @@ impl Driven for D {{
    fn push(&mut self, rel: &str, row: &Value) {{
       match rel {{
 {chr(10).join(pushes)}
+         _ => panic!("verif harness: unknown relation {{}}", rel),
+      }}
+   }}
+   fn clear(&mut self, rel: &str) {{
+      match rel {{
+{chr(10).join(clears)}
          _ => panic!("verif harness: unknown relation {{}}", rel),
       }}
    }}
